@@ -14,7 +14,7 @@ MANIFEST = {
             'external-link index without target, absent sheets of an existing linked workbook) at the head, middle and leaf of the chain (quick: all subsets at the middle, singles and pairs elsewhere), loaded with '
             'loads().finish() and calculated; loading/calculation must not raise, the faulted cell and its dependents must be error values of the stated kind, '
             'handlers must intercept them, and every cell that does not depend on the fault must equal its fault-free value. The five faults expressible in a dictionary are '
-            'enumerated (2^5 x positions) through from_dict as well. Thirteen further spellings of an unknown function (dotted names whose parts are implemented functions, _xlfn-prefixed dotted names, names extending an implemented one) are injected alone and next to every other fault.',
+            'enumerated (2^5 x positions) through from_dict as well. Thirteen further spellings of an unknown function (dotted names whose parts are implemented functions, _xlfn-prefixed dotted names, names extending an implemented one) are injected alone and next to every other fault.' ' Later additions: 13 spellings of unknown functions (also with error arguments), #REF! under reference operators, names leading to undefined names, other file names of the loaded book, a linked workbook with its own names and a dangling sheet, folder-qualified references to a workbook that exists elsewhere only.',
     'note': 'Fault-free values are computed by hand-written arithmetic in the check (the chain is linear). With several faults in one cell either error kind is accepted.',
 }
 RULE = 'case = (path, position, fault subset); non-trivial = subset non-empty and loaded+calculated; distinct = case key'
